@@ -175,16 +175,20 @@ class Role:
         return "%s%s%s" % (self.name, "(%s)" % self.obj.split("#")[0] if self.obj else "", "<%s>" % self.persp if self.persp else "")
 
 
-def role_of(it, e, depth=0):
-    """role of an expression (see module doc); None if unknown"""
+def role_of(it, e, depth=0, bind=None):
+    """role of an expression (see module doc); None if unknown.  bind: {parameter decl id: (caller's interp, argument)} when e
+    is an expression of a helper that is read in the context of one of its call sites"""
     e = L.unwrap(e)
     k = e.get("k")
-    if depth > 6:
+    if depth > 8:
         return None
     if k == "Int":
         return Role("zero") if e["v"] == "0" else None
     if k in ("Construct", "TempObj") and len(e.get("a", [])) == 1:
-        return role_of(it, e["a"][0], depth + 1)
+        return role_of(it, e["a"][0], depth + 1, bind)
+    if k == "Ref" and e.get("dk") == "param" and bind and e.get("d") in bind:
+        cit, arg = bind[e["d"]]
+        return role_of(cit, arg, depth + 1)
     if k == "Ref" and e.get("dk") == "param":
         n = e["n"]
         if n.endswith("_in"):
@@ -193,11 +197,15 @@ def role_of(it, e, depth=0):
     if k == "Ref" and e.get("dk") == "local":
         d = it.localdefs.get(e["d"])
         if d is not None and not it.reassigned(e["d"]):
-            return role_of(it, d, depth + 1)
+            return role_of(it, d, depth + 1, bind)
         return None
     if k == "MCall":
         nm = e.get("n", "")
         o = L.obj_id(e.get("obj")) if e.get("obj") is not None else "this"
+        if bind and e.get("obj") is not None:
+            ob0 = L.unwrap(e["obj"])
+            if ob0.get("k") == "Ref" and ob0.get("dk") == "param" and ob0.get("d") in bind:
+                o = L.obj_id(bind[ob0["d"]][1])         # the caller's object the helper's parameter stands for
         cf = e.get("cfull", "")
         m = re.search(r"<(.*Perspective::(\w+).*)>$", cf)
         persp = m.group(2) if m else None
@@ -212,7 +220,7 @@ def role_of(it, e, depth=0):
             return None
         return Role(nm.lstrip("_"), o, persp, render(e))
     if k == "Bin" and e.get("op") == "*":
-        a, b = role_of(it, e["lhs"], depth + 1), role_of(it, e["rhs"], depth + 1)
+        a, b = role_of(it, e["lhs"], depth + 1, bind), role_of(it, e["rhs"], depth + 1, bind)
         if a and b and {a.name, b.name} == set(DIM_ROLES) and a.obj == b.obj and a.persp == b.persp:
             return Role("size", a.obj, a.persp, render(e))
         return None
@@ -248,8 +256,39 @@ def e1_rules(ck, fam, roles_tab, seen_fail):
         fills = []          # (slot, expr node)
 
         def is_scal_push(s):
-            return s.get("k") == "MCall" and s.get("n") == "push_back" and s.get("obj", {}).get("k") == "Member" \
+            return s.get("k") == "MCall" and s.get("n") in ("push_back", "emplace_back") and len(s.get("a") or []) == 1 and s.get("obj", {}).get("k") == "Member" \
                 and L.SCAL_RE.search(s["obj"].get("qn", "")) and L.obj_id(s["obj"].get("b")) == "this"
+
+        def is_this_scal(e):
+            e = L.unwrap(e) if e is not None else {}
+            return e.get("k") == "Member" and L.SCAL_RE.search(e.get("qn", "")) and L.obj_id(e.get("b")) == "this"
+
+        def init_list(e):
+            e = L.unwrap(e) if e is not None else {}
+            if e.get("k") == "StdInitList":
+                e = L.unwrap(e.get("e") or {})
+            while e.get("k") in ("Construct", "TempObj") and len(e.get("a", [])) == 1 and "initializer_list" in str(e.get("ccls", "")):
+                e = L.unwrap(e["a"][0])
+                if e.get("k") == "StdInitList":
+                    e = L.unwrap(e.get("e") or {})
+            return e.get("a") or [] if e.get("k") == "InitList" else None
+
+        def scal_list_fill(s):
+            """(resets the list?, [expressions]) for the brace-list forms of the fill:
+            _scalar_index = {a, b, c};  _scalar_index.assign({a, b, c});  _scalar_index.insert(_scalar_index.end(), {a, b, c});"""
+            if s.get("k") == "OpCall" and s.get("op") == "=" and len(s.get("a") or []) == 2 and is_this_scal(s["a"][0]):
+                il = init_list(s["a"][1])
+                return (True, il) if il is not None else None
+            if s.get("k") == "MCall" and is_this_scal(s.get("obj")):
+                a = s.get("a") or []
+                if s.get("n") == "assign" and len(a) == 1:
+                    il = init_list(a[0])
+                    return (True, il) if il is not None else None
+                if s.get("n") == "insert" and len(a) == 2:
+                    il = init_list(a[1])
+                    at_end = any(x.get("k") == "MCall" and x.get("n") in ("end", "cend") and is_this_scal(x.get("obj")) for x in walk(a[0]))
+                    return (False, il) if il is not None and at_end else None
+            return None
 
         def is_reset(s):
             if s.get("k") != "MCall":
@@ -259,16 +298,90 @@ def e1_rules(ck, fam, roles_tab, seen_fail):
             return s.get("n") == "clear" and s.get("obj", {}).get("k") == "Member" and L.SCAL_RE.search(s["obj"].get("qn", "")) \
                 and L.obj_id(s["obj"].get("b")) == "this"
 
+        def helper_pushes(callee, depth=0):
+            """the unconditional top-level `_scalar_index.push_back(E)` statements of a helper of this class, in order
+            (nested helpers followed); None if it pushes under a condition / in a loop / resets the list"""
+            out = []
+            body = callee.body or {}
+            for s_ in (body.get("s", []) if body.get("k") == "Block" else [body]):
+                if is_reset(s_):
+                    return None
+                if is_scal_push(s_):
+                    out.append((s_, callee, {}))
+                    continue
+                sub = helper_of(callee, s_) if depth < 2 else None
+                if sub is not None:
+                    inner = helper_pushes(sub, depth + 1)
+                    if inner is None:
+                        return None
+                    b2 = {p_["d"]: a_ for p_, a_ in zip(sub.params, s_.get("a") or [])}
+                    out.extend((ps, pc, dict(pb, **{"via": (callee, b2)}) if not pb else pb) for ps, pc, pb in inner)
+                    continue
+                if any(is_scal_push(x) or is_reset(x) for x in walk(s_)):
+                    return None
+            return out
+
+        def helper_of(caller, s_):
+            """the family member (same object, non-virtual) a statement calls, if that member pushes into _scalar_index"""
+            if s_.get("k") != "MCall" or L.short(s_.get("ccls", "")) not in fam.classes or s_.get("cstatic"):
+                return None
+            if not (s_.get("obj") is None or L.obj_id(s_.get("obj")) == "this"):
+                return None
+            callee = fam.callee_fn(caller, s_)
+            if callee is None or callee is caller or callee.body is None or callee.d.get("virtual") or callee.d.get("ctor"):
+                return None
+            if not any(is_scal_push(x) for x in walk(callee.body)):
+                return None
+            return callee
+
         def scan(stmts, slot):
             for s in stmts:
                 k = s.get("k")
+                hp = helper_of(fn, s)
+                if hp is not None:
+                    # pushes extracted into a helper (`_set_dimensions(rows, columns, nnz)`): read them at this call site
+                    pushes = helper_pushes(hp)
+                    if pushes is None and any(is_reset(x) for x in walk(hp.body)):
+                        # a self-contained member (convert, read_from, ...): it resets the list and fills it itself; its own
+                        # fills are checked in its own body
+                        slot = None
+                        continue
+                    if pushes is None or slot is None or any("via" in pb for _, _, pb in pushes):
+                        if pushes is None or slot is None:
+                            ck.incomplete("C02.E1.slot-role", "%s (%s): %s() fills _scalar_index %s (line %s)" % (
+                                key, fn.loc, hp.name, "under conditions the check does not follow" if pushes is None else "at an unknown slot position", s.get("l")))
+                        else:
+                            ck.incomplete("C02.E1.slot-role", "%s (%s): %s() fills _scalar_index through a second helper level (line %s)" % (key, fn.loc, hp.name, s.get("l")))
+                        slot = None
+                        continue
+                    with L._alias_scope():
+                        hit = L.Interp(fam, hp)
+                    bind = {p_["d"]: (it, a_) for p_, a_ in zip(hp.params, s.get("a") or [])}
+                    for ps, _, _ in pushes:
+                        fills.append((slot, ps["a"][0], s.get("l"), (hit, bind)))
+                        slot += 1
+                    continue
+                lf = scal_list_fill(s)
+                if lf is not None:
+                    if lf[0]:
+                        slot = 0
+                    if slot is None:
+                        ck.incomplete("C02.E1.slot-role", "%s (%s): brace-list appended to _scalar_index at an unknown slot position (line %s)" % (key, fn.loc, s.get("l")))
+                    else:
+                        for e_ in lf[1]:
+                            fills.append((slot, e_, s.get("l"), None))
+                            slot += 1
+                    continue
                 if is_reset(s):
                     slot = 0
                 elif is_scal_push(s):
                     if slot is None:
-                        ck.incomplete("C02.E1.slot-role", "%s (%s): push into _scalar_index at an unknown slot position (line %s)" % (key, fn.loc, s.get("l")))
+                        if not fn.d.get("ctor") and fam.called_on_this(fn) and helper_pushes(fn) is not None:
+                            pass          # a helper: its pushes are read at its call sites, where the slot position is known
+                        else:
+                            ck.incomplete("C02.E1.slot-role", "%s (%s): push into _scalar_index at an unknown slot position (line %s)" % (key, fn.loc, s.get("l")))
                     else:
-                        fills.append((slot, s["a"][0], s.get("l")))
+                        fills.append((slot, s["a"][0], s.get("l"), None))
                         slot += 1
                 elif k == "Block":
                     slot = scan(s.get("s", []), slot)
@@ -303,9 +416,9 @@ def e1_rules(ck, fam, roles_tab, seen_fail):
         scan(fn.body.get("s", []) if fn.body.get("k") == "Block" else [fn.body], start)
 
         persp_by_obj = {}
-        for slot, e, line in fills:
+        for slot, e, line, ctx in fills:
             want = roles_tab[cls].get(slot)
-            r = role_of(it, e)
+            r = role_of(it, e) if ctx is None else role_of(ctx[0], e, 0, ctx[1])
             if want is None:
                 ob("C02.E1.slot-role", "slot%d" % slot, True, "slot %d of %s has no accessor naming its role" % (slot, cls), line, trivial=True)
                 continue
@@ -533,6 +646,31 @@ def alias_kernel_rules(ck, fam, facts, seen_fail):
         dr, dx = fn.params[0]["d"], fn.params[1]["d"]
         key = L.fkey(fn)
         problems, hazards, nchecked = [], [], 0
+        # local pointers / references derived from r or x (cursors `DT_* dst = r + k`, `const DT_* src(x)`): accesses through
+        # them are accesses to the two arrays, which the enumeration below does not follow
+        derived = set()
+        changed = True
+        while changed:
+            changed = False
+            for n_ in fn.nodes():
+                tgt, src = None, None
+                if n_.get("k") == "Var" and n_.get("init") is not None and ("*" in (fn.type(n_.get("t")) or "") or n_.get("ref")):
+                    tgt, src = n_["d"], n_["init"]
+                elif n_.get("k") == "Assign" and L.unwrap(n_["lhs"]).get("k") == "Ref" and "*" in (fn.ntype(L.unwrap(n_["lhs"])) or ""):
+                    tgt, src = L.unwrap(n_["lhs"])["d"], n_["rhs"]
+                if tgt is not None and tgt not in derived and tgt not in (dr, dx) and \
+                        any(y.get("k") == "Ref" and (y.get("d") in (dr, dx) or y.get("d") in derived) for y in walk(src)) and \
+                        not any(is_call(y) and str(y.get("callee", "")) in ("operator new[]", "malloc", "std::malloc") for y in walk(src)) and \
+                        not any(y.get("k") == "New" for y in walk(src)):
+                    derived.add(tgt)
+                    changed = True
+        if derived:
+            names = sorted({n_["n"] for n_ in fn.nodes() if n_.get("k") == "Var" and n_.get("d") in derived})
+            used = any((y.get("k") == "Index" and L.unwrap(y["b"]).get("d") in derived) or (y.get("k") == "Un" and y.get("op") == "*" and
+                       any(z.get("k") == "Ref" and z.get("d") in derived for z in walk(y["e"]))) for y in fn.nodes())
+            if used:
+                ck.incomplete("C02.alias-safe-transpose", "%s: the arrays r / x are accessed through derived pointers (%s), which the index enumeration does not follow" % (key, ", ".join(names)))
+                continue
         loop_ids = {}
         for (R, C) in SHAPES:
             env = {fn.params[2]["d"]: R, fn.params[3]["d"]: C}
@@ -752,7 +890,12 @@ def bucket_order_rules(ck, fam, seen_fail):
                 it = L.Interp(fam, fn)
             # position: a cursor slot (directly, or through a const local)
             idx = L.unwrap(lhs["idx"])
-            if idx.get("k") == "Ref" and idx.get("dk") == "local" and idx.get("d") in it.localdefs and not it.reassigned(idx["d"]):
+            refalias = None
+            if idx.get("k") == "Ref" and idx.get("dk") == "local" and idx.get("d") in it.localdefs and (it.localvars.get(idx["d"]) or {}).get("ref"):
+                # `IT_ & cursor(C[l]); A[cursor] = v; ++cursor;` - the cursor slot through a reference
+                refalias = idx["d"]
+                idx = it.localdefs[idx["d"]]
+            elif idx.get("k") == "Ref" and idx.get("dk") == "local" and idx.get("d") in it.localdefs and not it.reassigned(idx["d"]):
                 idx = it.localdefs[idx["d"]]
             cur = cursor_of(idx)
             if cur is None:
@@ -767,6 +910,13 @@ def bucket_order_rules(ck, fam, seen_fail):
                         y = L.unwrap(x["e"])
                         if y.get("k") == "Index" and L.unwrap(y["b"]).get("k") == "Ref" and L.unwrap(y["b"])["d"] == cd:
                             steps.append(1 if x["op"] == "++" else -1)
+                        elif refalias is not None and y.get("k") == "Ref" and y.get("d") == refalias:
+                            steps.append(1 if x["op"] == "++" else -1)
+                    elif x.get("k") == "Assign" and x.get("op") in ("+=", "-=") and L.unwrap(x["rhs"]).get("k") == "Int" and L.unwrap(x["rhs"]).get("v") == "1":
+                        y = L.unwrap(x["lhs"])
+                        if (y.get("k") == "Index" and L.unwrap(y["b"]).get("k") == "Ref" and L.unwrap(y["b"])["d"] == cd) or \
+                                (refalias is not None and y.get("k") == "Ref" and y.get("d") == refalias):
+                            steps.append(1 if x["op"] == "+=" else -1)
                 if len(steps) != 1:
                     continue
                 cdir = steps[0]
@@ -1452,8 +1602,24 @@ def cscr_kind_rules(ck, fam, facts, seen_fail):
 BANDED_DOC = "main diagonal has offset rows - 1"      # kernel/lafem/sparse_matrix_banded.hpp, class documentation
 
 
-def lin(it, e, depth=0):
-    """linear normal form of an integer expression: ({atom key: coeff}, const, {atom key: node}) or None"""
+def helper_return_expr(callee):
+    """the expression a small pure helper returns: a body of const-local declarations followed by one `return E;`
+    (`static Index _band_offset(Index row, Index col, Index num_rows) { return col + num_rows - 1 - row; }`); None otherwise"""
+    if callee is None or callee.body is None or callee.d.get("virtual"):
+        return None
+    body = callee.body
+    stmts = body.get("s", []) if body.get("k") == "Block" else [body]
+    stmts = [x for x in stmts if x.get("k") != "Null_" and not (is_call(x) and x.get("callee") == "FEAT::assertion")]
+    if not stmts or stmts[-1].get("k") != "Return" or stmts[-1].get("e") is None:
+        return None
+    if any(x.get("k") != "Decl" for x in stmts[:-1]):
+        return None
+    return stmts[-1]["e"]
+
+
+def lin(it, e, depth=0, bind=None):
+    """linear normal form of an integer expression: ({atom key: coeff}, const, {atom key: node}) or None.
+    bind: {parameter decl id: (caller's interp, argument node)} while reading the return expression of an inlined helper"""
     e = L.unwrap(e)
     k = e.get("k")
     if depth > 14:
@@ -1461,13 +1627,16 @@ def lin(it, e, depth=0):
     if k == "Int":
         return {}, int(e["v"]), {}
     if k in ("Construct", "TempObj") and len(e.get("a", [])) == 1:
-        return lin(it, e["a"][0], depth + 1)
+        return lin(it, e["a"][0], depth + 1, bind)
+    if k == "Ref" and e.get("dk") == "param" and bind and e.get("d") in bind:
+        cit, arg = bind[e["d"]]
+        return lin(cit, arg, depth + 1)
     if k == "Ref" and e.get("dk") == "local" and L.INT_T.match(it.fn.ntype(e)):
         d = it.localdefs.get(e["d"])
         if d is not None and not it.reassigned(e["d"]) and not it.is_loop_var(e["d"]):
-            return lin(it, d, depth + 1)
+            return lin(it, d, depth + 1, bind)
     if k == "Bin" and e.get("op") in ("+", "-"):
-        a, b = lin(it, e["lhs"], depth + 1), lin(it, e["rhs"], depth + 1)
+        a, b = lin(it, e["lhs"], depth + 1, bind), lin(it, e["rhs"], depth + 1, bind)
         if a is None or b is None:
             return None
         sg = 1 if e["op"] == "+" else -1
@@ -1478,15 +1647,30 @@ def lin(it, e, depth=0):
         nodes.update(b[2])
         return {m: c for m, c in co.items() if c}, a[1] + sg * b[1], nodes
     if k == "Un" and e.get("op") == "-":
-        a = lin(it, e["e"], depth + 1)
+        a = lin(it, e["e"], depth + 1, bind)
         return None if a is None else ({m: -c for m, c in a[0].items()}, -a[1], a[2])
     if k == "Bin" and e.get("op") == "*":
-        a, b = lin(it, e["lhs"], depth + 1), lin(it, e["rhs"], depth + 1)
+        a, b = lin(it, e["lhs"], depth + 1, bind), lin(it, e["rhs"], depth + 1, bind)
         if a is not None and b is not None:
             for x, y in ((a, b), (b, a)):
                 if not x[0]:
                     return {m: c * x[1] for m, c in y[0].items() if c * x[1]}, y[1] * x[1], y[2]
         # a product of two non-constants is one opaque atom
+    if k in ("Call", "MCall") and depth < 8 and not bind:
+        # the relation behind a small helper: read its return expression with the parameters bound to the arguments
+        callee = it.any_callee(e)
+        rx = helper_return_expr(callee)
+        if rx is not None and len(callee.params) == len(e.get("a") or []) and callee is not it.fn:
+            with L._alias_scope():
+                cit = L.Interp(it.fam, callee)
+            cit.is_loop_var = lambda d: False
+            b2 = {p_["d"]: (it, a_) for p_, a_ in zip(callee.params, e["a"])}
+            r = lin(cit, rx, depth + 1, b2)
+            if r is not None and not any(x.get("k") == "Ref" and x.get("dk") == "local" and x.get("d") in cit.localdefs
+                                         for nd in r[2].values() for x in walk(nd)):
+                return r
+    if bind and any(x.get("k") == "Ref" and x.get("dk") == "param" and x.get("d") in bind for x in walk(e)):
+        return None          # an opaque atom over the helper's parameters cannot be named in the caller's terms
     key = L._norm_extent(it, e)
     return {key: 1}, 0, {key: e}
 
@@ -1552,7 +1736,7 @@ def banded_candidates(fam, facts, roles_tab):
                 nodes = dict(a[2])
                 nodes.update(b[2])
                 form = ({m: c for m, c in co.items() if c}, a[1] - b[1], nodes)
-            elif k == "Bin" and n.get("op") in ("+", "-"):
+            elif (k == "Bin" and n.get("op") in ("+", "-")) or (k in ("Call", "MCall") and helper_return_expr(it.any_callee(n)) is not None):
                 p = par.get(id(n))
                 while p is not None and p.get("k") in ("Cast",) or (p is not None and p.get("k") in ("Construct", "TempObj") and len(p.get("a", [])) == 1):
                     p = par.get(id(p))
